@@ -5,6 +5,7 @@ C20  TZ value resolution follows tzset(3): file first, directory order, colon pr
 (`none` = unreadable); its first component is the exact sequence of paths requested from the reader.
 -/
 import TzVerif.Model.TzFile
+import TzVerif.Proofs.SrcEqTzString
 
 namespace TzVerif.C20
 open TzVerif.Model
@@ -179,5 +180,11 @@ example :
     let fs : Bytes → Option Bytes := fun p => if p = [47, 98, 47, 90] then some [1, 2, 3] else none
     resolveTz dirs fs [90] = ([[47, 97, 47, 90], [47, 98, 47, 90]], .error (.tz (.tzFile (.parseData .unexpectedEof)))) := by
   decide
+
+/-- a value that names no readable file is decoded by this parser (extensions off): src/parse/tz_string.rs translated to Lean on every run (DESIGN §13) equals the model's
+    `parsePosixTz` used by the theorems above -/
+theorem translated_parser_is_the_model (s : TzVerif.Model.Bytes) (ext : Bool) :
+    Src.parse_posix_tz s ext = TzVerif.Model.parsePosixTz s ext :=
+  TzVerif.Proofs.SrcEq.parse_posix_tz_eq s ext
 
 end TzVerif.C20
